@@ -437,8 +437,13 @@ func c16Indices(r *Run) {
 	}
 	// migrillian: leaves[i] = buildLogLeaf(b.Start+i, &b.Entries[i])
 	if fn := r.Fn("(*trillian/migrillian/core.PreorderedLogClient).addSequencedLeaves"); fn != nil {
+		ip, _ := c20LeafParams(r) // the int64 (index) parameter of buildLogLeaf, wherever it is declared
 		for _, c := range CallsTo(fn, "(*trillian/migrillian/core.PreorderedLogClient).buildLogLeaf") {
-			got := r.D.Lin(CallArgs(c)[1], nil).String()
+			if ip >= len(CallArgs(c)) {
+				r.Fail("migrillian:index", r.Where(c), "undecided: buildLogLeaf is called without an index")
+				continue
+			}
+			got := r.D.Lin(CallArgs(c)[ip], nil).String()
 			r.Check("migrillian:index", linNoConst(got) && (glob("+p2.Start +φ*", got) || glob("+φ* +p2.Start", got)), r.Where(c), "leaf index = "+got+" (batch.Start + i)")
 		}
 	}
